@@ -8,7 +8,7 @@ import functools
 
 HAZARDS = [
     "", " ", "31.04.", "31.04.2019", "30.2.2019", "29.02.2019", "29.02.1900", "29.02.2000", "29.2.", "31.11", "31.6.", "0", "00", "24:00", "12am", "12 pm", "0000", "2400", "1200",
-    "00:00", "23:59", "12:15am", "early", "late", "very early", "sehr spät", "früh", "morning", "#", "#1", "#fun", "#p_1-x", "-", "a", "an", "of", "am", "pm",
+    "00:00", "23:59", "12:15am", "early", "late", "very early", "sehr spät", "früh", "morning", "#", "#1", "#fun", "#p_1-x", "#\\", "#\\home", "a#\\1 b", "#*x", "#(", "#[a", "#+", "#?", "\\", "#.#", "-", "a", "an", "of", "am", "pm",
     "gargelbabel", "\u00df", "\u0130", "e\u0301", "\U0001f600", "\x00", "\u00a0", "\u2013", "9-5", "13-12", "23:30-3:35", "1", "31.", "32", "for", "für", "von", "bis",
     "between", "and", "next", "this", "half", "quarter past", "29th", "feb", "2100", "1899", "99", "1 day", "3 nights", "0 days", "einunddreissig tage",
     "mon", "so", "on", "at", "ab", "not before", "nicht nach", "spätestens", "noon", "midnight", "8 in the evening",
